@@ -23,8 +23,11 @@ BUDGET = {'quick': 6000, 'thorough': 160000}
 PROFILE = {
     'weights': {'app': 14, 'idg': 5, 'rmidg': 2, 'bl': 3, 'down': 3,
                 'rmsrv': 3, 'orphanbl': 3, 'orphanrm': 3, 'orphanidg': 3,
-                'clone': 5},
-    'force': ['idg', 'orphanbl', 'orphanrm', 'orphanidg', 'clone', 'rmsrv'],
+                'clone': 5, 'fillclone2': 2, 'clone2': 2, 'prio': 2,
+                'capsqueeze': 4},
+    'force': ['idg', 'orphanbl', 'orphanrm', 'orphanidg', 'clone', 'rmsrv',
+              'fillclone2', 'capsqueeze'],
+    'rich_allocs': True,
     'groups': True,
     'group_bias': True,
 }
